@@ -651,6 +651,66 @@ def rule_time(ctx):
     return rr
 
 
+def rule_digits(ctx):
+    rr = RuleResult('C20', 'C20.digits', 'CBU',
+                    'text converted with int(text, base) has been restricted '
+                    'to the digits of the base', floor=1)
+    from ..util import with_helpers
+    p = ctx.project
+    f0 = p.func(ENG, '_x2dec')
+    sites = []
+    for g in with_helpers(ctx, f0):
+        for n in own_nodes(g):
+            if isinstance(n, ast.Call) and isinstance(n.func, ast.Name) and \
+                    n.func.id == 'int' and len(n.args) == 2 and isinstance(
+                    n.args[0], ast.Name):
+                sites.append((g, n))
+    if not sites:
+        raise AnalysisError('_x2dec: no int(text, base) conversion found')
+    for g, n in sites:
+        rr.instances += 1
+        v = n.args[0].id
+
+        def about(e):
+            return any(isinstance(x, ast.Name) and x.id == v
+                       for x in ast.walk(e))
+
+        guard = None
+        for m in own_nodes(g):
+            if getattr(m, 'lineno', 0) > n.lineno:
+                continue
+            # set(x) <= DIGITS / set(x) - DIGITS / set(x).issubset(..)
+            if isinstance(m, (ast.Compare, ast.BinOp)) and any(
+                    isinstance(c, ast.Call) and isinstance(
+                        c.func, ast.Name) and c.func.id in ('set', 'frozenset')
+                    and c.args and about(c.args[0]) for c in ast.walk(m)):
+                guard = m
+            elif isinstance(m, ast.Call) and isinstance(
+                    m.func, ast.Attribute) and m.func.attr in (
+                    'issubset', 'issuperset', 'fullmatch', 'match', 'strip',
+                    'lstrip', 'translate') and (about(m.func.value) or any(
+                        about(a) for a in m.args)):
+                guard = m
+            elif isinstance(m, ast.Call) and isinstance(
+                    m.func, ast.Name) and m.func.id in ('all', 'any') and \
+                    m.args and isinstance(m.args[0], ast.GeneratorExp) and \
+                    about(m.args[0].generators[0].iter):
+                guard = m
+        if guard is not None:
+            rr.ok('%s restricts the text with `%s` before int(%s, base)' % (
+                g.qualname, norm_src(guard)[:60], v),
+                '%s:%d' % (g.module.rel, n.lineno))
+        else:
+            rr.fail(key_of(g, 'int(text, base) on unrestricted text'),
+                    '%s converts with `%s` whatever the text is: int() with a '
+                    'base also accepts a sign, surrounding blanks, `_` between '
+                    'digits and the prefix of the base, so "-1", " 1f ", '
+                    '"1_0" and "0x1F" are converted instead of giving #NUM!'
+                    % (g.qualname, norm_src(n)), file=g.module.rel,
+                    function=g.qualname, line=n.lineno)
+    return rr
+
+
 def run(ctx):
     S = ctx.soft
     from .common import rule_memo
@@ -658,4 +718,4 @@ def run(ctx):
             if r.module.rel in (ENG, DATE, MATH)]
     return [S(rule_mask, ctx), S(rule_roman, ctx), S(rule_serial, ctx),
             S(rule_weekday, ctx), S(rule_time, ctx),
-            S(rule_memo, ctx, 'C20', 'C20.memo', regs)]
+            S(rule_memo, ctx, 'C20', 'C20.memo', regs), S(rule_digits, ctx)]
